@@ -71,7 +71,8 @@ def build_program(binding, probe_name, scopes, shadow_arg, macro_order, body_ord
         elif sc == "main-after":
             after.append(probe)
         elif sc == "shadow-macro":
-            defs.append(A.macro("ms", ("a", "n"), A.seq(probe, A.gate("k", "n"))))
+            # k2 q[0] names a header register / alias that is NOT shadowed: it must keep its header meaning
+            defs.append(A.macro("ms", ("a", "n"), A.seq(probe, A.gate("k", "n"), A.gate("k2", A.item("q", 0)))))
             calls.append(A.gate("ms", *shadow_arg))
         elif sc == "other-macro":
             defs.append(A.macro("mo", ("b",), A.seq(A.gate("k", "b"), probe)))
